@@ -174,6 +174,10 @@ func genResponse(t *rapid.T, p *Pkg, info implInfo, docs []DocResponse) (reflect
 				}
 			}
 			code := rapid.IntRange(200, 599).Draw(t, "code")
+			// half of the time a registered status code (code-specific handling, if any, hides there)
+			if rapid.Bool().Draw(t, "code_registered") {
+				code = rapid.SampledFrom([]int{200, 201, 202, 203, 205, 206, 207, 208, 226, 300, 301, 302, 303, 305, 307, 308, 400, 401, 402, 403, 404, 405, 406, 407, 408, 409, 410, 411, 412, 413, 414, 415, 416, 417, 418, 421, 422, 423, 424, 425, 426, 428, 429, 431, 451, 500, 501, 502, 503, 504, 505, 506, 507, 508, 510, 511}).Draw(t, "code_iana")
+			}
 			for documented[code] || code == 204 || code == 304 {
 				code++
 				if code > 599 {
@@ -520,6 +524,7 @@ func responsesEqual(sent, got reflect.Value, sentRaw []byte) (bool, string) {
 }
 
 func CheckC10(p *Pkg, e *Env, r *res.Result) {
+	HugeStringOneIn = 1500
 	if _, ok := p.Types["Client"]; !ok {
 		r.Label("packages-without-client")
 		return
